@@ -21,7 +21,7 @@ const NON_WORKER_COUNT: usize = 2;
 enum State<R> {
     Paused(R),
     Running {
-        reader_handle: JoinHandle<Result<R, ReadError<R>>>,
+        reader_handle: JoinHandle<R>,
         read_rx: ReadRx,
         recycle_tx: RecycleTx,
     },
@@ -95,7 +95,7 @@ impl<R> MultithreadedReader<R> {
                 ..
             } => {
                 drop(recycle_tx);
-                reader_handle.join().unwrap().map_err(|e| e.1)
+                Ok(reader_handle.join().unwrap())
             }
             State::Done => panic!("invalid state"),
         }
@@ -211,11 +211,7 @@ where
 
         drop(recycle_tx);
 
-        // Discard read errors.
-        let inner = match reader_handle.join().unwrap() {
-            Ok(inner) => inner,
-            Err(ReadError(inner, _)) => inner,
-        };
+        let inner = reader_handle.join().unwrap();
 
         self.state = State::Paused(inner);
     }
@@ -354,13 +350,7 @@ fn recv_buffer(read_rx: &ReadRx) -> Option<(Buffer, io::Result<()>)> {
     buffered_rx.recv().ok()
 }
 
-struct ReadError<R>(R, io::Error);
-
-fn spawn_reader<R>(
-    mut reader: R,
-    read_tx: ReadTx,
-    recycle_rx: RecycleRx,
-) -> JoinHandle<Result<R, ReadError<R>>>
+fn spawn_reader<R>(mut reader: R, read_tx: ReadTx, recycle_rx: RecycleRx) -> JoinHandle<R>
 where
     R: Read + Send + 'static,
 {
@@ -371,7 +361,13 @@ where
             match read_frame_into(&mut reader, &mut buffer.buf) {
                 Ok(result) if result.is_none() => break,
                 Ok(_) => {}
-                Err(e) => return Err(ReadError(reader, e)),
+                Err(e) => {
+                    // Pass the error to the caller in stream order.
+                    let (buffered_tx, buffered_rx) = crossbeam_channel::bounded(1);
+                    buffered_tx.send((buffer, Err(e))).ok();
+                    read_tx.send(buffered_rx).ok();
+                    break;
+                }
             }
 
             let (buffered_tx, buffered_rx) = crossbeam_channel::bounded(1);
@@ -392,7 +388,7 @@ where
             }
         }
 
-        Ok(reader)
+        reader
     })
 }
 
